@@ -1,6 +1,8 @@
 CONSTANT MaxEvol = 5
 CONSTANT SlotsPerKes = 7
 CONSTANT OpPeriod = 3
+CONSTANT MaxHist = 3
+CONSTANT MixedOffs = TRUE
 INIT Init
 NEXT Next
 INVARIANT HonestValid
@@ -10,3 +12,6 @@ INVARIANT BodyBound
 INVARIANT Covering
 INVARIANT InsiderCaught
 INVARIANT InsiderExact
+INVARIANT HistoryIrrelevant
+INVARIANT ReplayNeedsCold
+INVARIANT AcceptedPins
